@@ -432,7 +432,7 @@ func c16FramesPart(c *Ctx) {
 		r.Rule += " || "
 	}
 	r.Rule += "frames: hostile stream (short length field | oversized | wrong magic/version | truncated per-type fields | hostile compression envelope | random | retyped | incomplete, optionally between valid frames, PRNG segmentation) fed to a live connection in a subprocess -> outcome class vs Stream.readAll+Frame.parse; survival of the process and of an unrelated connection; peak RSS growth; non-trivial = the stream is refused, dropped or recovered (not plainly routed)"
-	n := c.N(260, 8000)
+	n := c.N(500, 8000)
 	var cases []c16FCase
 	// directed: the D12 witnesses first
 	for l := 0; l < 8; l++ {
